@@ -1,6 +1,6 @@
 """C09 - pause and resume are transparent (pause twin)."""
 from ovf import workloads
-from ovf.props.common import batches, scale, ASSUME_SIM
+from ovf.props.common import batches, family_slices, scale, ASSUME_SIM
 from ovf.props.sweeps import ctl_sweep  # noqa: F401
 from ovf.sim import explore
 from ovf.sim.provider import canon, h64
@@ -13,7 +13,7 @@ RULE = ("base histories = generated definitions x hashed outcomes x deterministi
         "executes the same steps minus the two requests; compared: every later offer, final status, executed "
         "multiset, errors (as multiset) and output; a second sweep inserts the pause at every position and keeps "
         "polling after every report while pausing/paused; online: no offer while pausing/paused, `paused` iff nothing in "
-        "flight; non-trivial = pause accepted while >= 1 action in flight or >= 1 task staged; distinct = (definition, "
+        "flight; additionally the decision-shape family (exhaustive in the thorough tier, a rotating slice in the quick tier): every acyclic edge set over 4 tasks with a join x condition succeeded/failed per edge x outcome per task (4128 definitions); non-trivial = pause accepted while >= 1 action in flight or >= 1 task staged; distinct = (definition, "
         "history, position, request form) digest")
 ASSUMPTIONS = ASSUME_SIM + ["the unpaused twin withholds the same polls as the paused run (a freely polling twin differs legitimately under fail-fast)"]
 
@@ -140,6 +140,8 @@ def jobs(tier, seed):
     # the twin withholds polls while pausing; this sweep polls after every report while pausing / paused
     js += batches("ctl_sweep", scale(tier, 32, 800), scale(tier, 2, 20), gen="mix", p_loop=0.25, P=P, gseed=seed + 1,
                   modes=["pause"], name="pause-sweep-with-polls")
+    # decision-shape family (exhaustive in the thorough tier, a rotating slice in the quick tier): every acyclic edge set over 4 tasks with a join x condition succeeded/failed per edge x outcome per task (4128 definitions)
+    js += family_slices("pause_twin", 4128, 48, tier, seed, gen="cshape", thin=scale(tier, 3, 1), p_fail=0.0, name="decision-shapes-pause-twin")
     return js
 
 
